@@ -174,10 +174,10 @@ def check_readers(ctx):
     ctx.touch(ri)
     cfg = cfg_of(ri.node)
     raises = [n for n in cfg.real_nodes() if isinstance(n.ast, ast.Raise)]
-    conds = [cnd.facts(cfg, r) for r in raises]
-    ok = any(("start_char.value == '<'", False) in c for c in conds)
+    conds = [{a for t, v in cfg.dominating_conditions(r) for a in cnd.canon(rules.expand_ast(ri.node, t), v)} for r in raises]  # locals spelled out
+    ok = any(("parser.get_token().value == '<'", False) in c for c in conds)
     ctx.ob("C15.P1", ri.qualname, ok, "an item must start with '<'" if ok else "a missing '<' is not refused", key="open", where=ri.where)
-    ok = any(("data_type.value.upper() in cls._subclasses_by_sml", False) in c for c in conds)
+    ok = any(("parser.get_token().value.upper() in cls._subclasses_by_sml", False) in c for c in conds)
     ctx.ob("C15.P1", ri.qualname, ok, "an unknown type name is refused" if ok else "an unknown type name is not refused with an exception", key="unknown-type", where=ri.where)
     rets = [n for n in cfg.real_nodes() if isinstance(n.ast, ast.Return)]
     ok = len(rets) == 1 and rules.expand(ri.node, rets[0].ast.value) == "cls._subclasses_by_sml[parser.get_token().value.upper()].from_sml(parser)"
